@@ -26,6 +26,9 @@ PObj(c)    == [k |-> "obj", c |-> c]             \* a valid instance of generate
 PMemview   == [k |-> "memoryview"]
 \* values that have a length but cannot be sliced or indexed: a set (of n integers) and a dict with n integer keys;
 \* no Stone type accepts them, however many entries they have
+\* sequences that are neither list nor tuple: range(n) (the integers 0..n-1) and a bytearray of the bytes 1, 2
+PRange(n)  == [k |-> "range", n |-> n]
+PByteArray == [k |-> "bytearray"]
 PSet(n)    == [k |-> "set", n |-> n]
 PIntDict(n) == [k |-> "intdict", n |-> n]
 NotSet     == [k |-> "notset"]
